@@ -8,6 +8,7 @@ package zzfs
 //zz:rt
 
 import (
+	gopath "path"
 	"encoding/json"
 	"errors"
 	"io"
@@ -294,6 +295,39 @@ func ReadDir(dir string) ([]os.FileInfo, error) {
 	for _, n := range names {
 		ino := fs.Entries[n]
 		out = append(out, fileInfo{name: n, size: ino.Size, dir: ino.Dir})
+	}
+	return out, nil
+}
+
+// Glob: path/filepath.Glob over the one directory of the model (the pattern's directory
+// part is literal; the last element is matched with path.Match's syntax, which is
+// filepath.Match's on unix).
+func Glob(pattern string) ([]string, error) {
+	fs := Cur
+	if dead, fail := fs.step("glob", false); dead || fail {
+		return nil, nil // Glob ignores I/O errors
+	}
+	dir, last := pattern, ""
+	for i := len(pattern) - 1; i >= 0; i-- {
+		if pattern[i] == '/' {
+			dir, last = pattern[:i], pattern[i+1:]
+			break
+		}
+	}
+	var names []string
+	for k := range fs.Entries {
+		names = append(names, k)
+	}
+	sort.Strings(names)
+	var out []string
+	for _, n := range names {
+		ok, err := gopath.Match(last, n)
+		if err != nil {
+			return nil, err
+		}
+		if ok {
+			out = append(out, dir+"/"+n)
+		}
 	}
 	return out, nil
 }
